@@ -4,7 +4,7 @@ against the check of its property (quick tier; extra checks listed in EXTRA) and
 /verif/seeded/SUMMARY.md. Each run uses a scratch worktree of /repo (tools/seedtest.py)."""
 import json, os, subprocess, sys
 V = os.path.dirname(os.path.dirname(os.path.abspath(__file__)))
-EXTRA = {"C10-2": ["C10", "C09"]}
+EXTRA = {"C10-2": ["C10", "C09"], "C07-r7-2": ["C07", "C09"], "C14-r7-2": ["C14", "C01"], "C05-r7-3": ["C05", "C04"]}
 
 def main():
     only = sys.argv[2] if len(sys.argv) > 2 and sys.argv[1] == "--only" else ""
@@ -29,7 +29,16 @@ def main():
                         sig = line.split("[", 1)[1].split("]")[0]
         rows.append((name, conf, ",".join(det) or "MISSED", sig))
         print(rows[-1], flush=True)
-    with open(os.path.join(V, "seeded", "SUMMARY.md"), "w") as f:
+    # with --only the other rows of an existing summary are kept
+    sp = os.path.join(V, "seeded", "SUMMARY.md")
+    if only and os.path.exists(sp):
+        have = {r[0] for r in rows}
+        for line in open(sp):
+            c = [x.strip() for x in line.strip().strip("|").split("|")]
+            if len(c) == 4 and c[0].startswith("C") and c[0] not in have and os.path.isdir(os.path.join(V, "seeded", c[0])):
+                rows.append(tuple(c))
+        rows.sort()
+    with open(sp, "w") as f:
         f.write("# Seeded changes re-run against the current checks (quick tier)\n\n| change | confirmed (suite passes / demo fails with / passes without) | detected by | first signature |\n|---|---|---|---|\n")
         for r in rows:
             f.write("| %s | %s | %s | %s |\n" % r)
